@@ -410,21 +410,21 @@ UpdRet(m, e, s2) ==
 
 \* where a request landed, in terms of observable events only: "tail" = after the plan ended, "paused", else "run"
 Where(m) == IF m.planDone THEN "tail" ELSE IF m.st = "paused" THEN "paused" ELSE "run"
-SigOf(sus) == IF sus = "s1" THEN "sig1" ELSE IF sus = "s2" THEN "sig2" ELSE "sig3"
+MonSigOf(sus) == IF sus = "s1" THEN "sig1" ELSE IF sus = "s2" THEN "sig2" ELSE "sig3"
 CanTrip(m) == m.st \in {"idle", "running", "suspending"}
 UpdSus(m, e) ==
   LET op == e[2] name == e[3] v == e[6] IN
   CASE op = "sus_install" ->
          [m EXCEPT !.susInst = @ \cup {name}, !.susUsed = TRUE,
-                   !.susEff = IF SigOf(name) \in m.sigHigh /\ CanTrip(m) THEN @ \cup {name} ELSE @,
-                   !.trips = IF SigOf(name) \in m.sigHigh /\ m.st \in {"running", "suspending"} THEN @ + 1 ELSE @]
+                   !.susEff = IF MonSigOf(name) \in m.sigHigh /\ CanTrip(m) THEN @ \cup {name} ELSE @,
+                   !.trips = IF MonSigOf(name) \in m.sigHigh /\ m.st \in {"running", "suspending"} THEN @ + 1 ELSE @]
     [] op = "sus_remove" -> [m EXCEPT !.susInst = @ \ {name}, !.susEff = @ \ {name}]
     [] op = "sig_put" ->
          IF v # 0 THEN [m EXCEPT !.sigHigh = @ \cup {name},
-                                 !.susEff = IF CanTrip(m) THEN @ \cup {x \in m.susInst : SigOf(x) = name} ELSE @,
+                                 !.susEff = IF CanTrip(m) THEN @ \cup {x \in m.susInst : MonSigOf(x) = name} ELSE @,
                                  !.trips = IF m.st \in {"running", "suspending"} /\ name \notin m.sigHigh
-                                           THEN @ + Cardinality({x \in m.susInst : SigOf(x) = name}) ELSE @]
-         ELSE [m EXCEPT !.sigHigh = @ \ {name}, !.susEff = {x \in @ : SigOf(x) # name}]
+                                           THEN @ + Cardinality({x \in m.susInst : MonSigOf(x) = name}) ELSE @]
+         ELSE [m EXCEPT !.sigHigh = @ \ {name}, !.susEff = {x \in @ : MonSigOf(x) # name}]
     [] OTHER -> m
 
 UpdReq(m, e, s) ==
